@@ -503,4 +503,5 @@ def run(out):
     out.sample({'component': 'multi', 'case': multis[0]})
     core.kernel_crosscheck(out, [(COMP_PORT, c) for c in rng.sample(cases, 150)] + [(COMP_MULTI, c) for c in multis[:50]], 'C11')
     out.assumptions += ['the wall-clock behaviour of time.sleep and garbage-collector-driven __del__ are not modelled (sleep is a counter, __del__ is called explicitly)',
-                                                'MultiPort polls its sub-ports in list order here (random.shuffle is replaced by the identity)']
+                                                'MultiPort polls its sub-ports in list order here (random.shuffle is replaced by the identity)',
+                        'the IOPort wrapper is modelled over two independent device ports (IOPortM.v); an IOPort whose input and output are one and the same port object is covered by the plain port model']
